@@ -198,6 +198,83 @@ def whole_run_claim(shape, wrap):
     return claim
 
 
+class _AngleStub:
+    """the module's torch with angle(<the overlap values>) answering the symbolic wrapped phases. The overlap values themselves are
+    a concrete stand-in: code that inspects them in another way sees that stand-in, and a counterexample obtained so is only reported
+    if it reproduces with consistent real data (replay)"""
+
+    def __init__(self, inner, data, phases):
+        self._inner, self._data, self._phases = inner, data, phases
+
+    def __getattr__(self, name):
+        return getattr(self._inner, name)
+
+    def angle(self, x):
+        if x is self._data:
+            return self._phases
+        return self._inner.angle(x)
+
+
+def wrapper_claim(grid, member, two_pass):
+    """unwrap_bf_overlap_phase_torch on a detector grid `grid` whose bright-field pixels are all pixels and whose overlap region is
+    `member` (0/1 per pixel, row-major): the returned phases equal the smooth field up to one constant on the region"""
+    import quantem.diffractive_imaging.direct_ptycho_utils as dpu
+    H, W = grid
+    n = H * W
+    idx = [i for i in range(n) if member[i]]
+
+    def claim(I):
+        with I.patch_torch(iu, dpu):
+            phis, ks = {}, {}
+            for i in idx:
+                phis[i] = I.real(f"phi{i}", -math.pi, math.pi)
+                ks[i] = _int(I, f"k{i}", -2, 2)
+            bf_mask = torch.ones(grid, dtype=torch.bool)
+            mask_bf = torch.tensor([bool(m) for m in member])
+            if I.mode == "sym":
+                psi = {i: phis[i] + ks[i] * (2 * math.pi) for i in idx}
+                for i in idx:
+                    I.assume(phis[i] > -math.pi)
+                for i in idx:
+                    r, c = divmod(i, W)
+                    for rr, cc in ((r, (c + 1) % W), ((r + 1) % H, c)):
+                        j = rr * W + cc
+                        if j != i and member[j]:
+                            d = psi[i] - psi[j]
+                            I.assume(d < math.pi)
+                            I.assume(d > -math.pi)
+                from ..sym.torchx import SymTensor
+                vals = [phis[i] if member[i] else core.to_S(Fraction(1, 4)) for i in range(n)]
+                ph = SymTensor(np.array(vals + [None], dtype=object)[:-1])
+                data = torch.ones(n, dtype=torch.complex64)
+                saved = dpu.torch
+                dpu.torch = _AngleStub(saved, data, ph)
+                try:
+                    out = dpu.unwrap_bf_overlap_phase_torch(data, mask_bf, bf_mask, two_pass=two_pass)
+                finally:
+                    dpu.torch = saved
+            else:
+                base = I.rnd.uniform(-4, 4)
+                field = {i: base + 0.5 * (i % W) + 0.4 * (i // W) + I.rnd.uniform(-0.3, 0.3) for i in idx}
+                psi = field
+                ang = []
+                for i in range(n):
+                    if member[i]:
+                        kk = float(round(field[i] / (2 * math.pi)))
+                        I.values[f"k{i}"] = kk
+                        I.values[f"phi{i}"] = field[i] - 2 * math.pi * kk
+                        ang.append(I.values[f"phi{i}"])
+                    else:
+                        ang.append(0.25)
+                data = torch.polar(torch.ones(n, dtype=torch.float32), torch.tensor(ang, dtype=torch.float32))
+                out = dpu.unwrap_bf_overlap_phase_torch(data, mask_bf, bf_mask, two_pass=two_pass)
+            rels = []
+            for i in idx[1:]:
+                rels.append(Rel("overlap_phase_equals_true_phase_up_to_one_constant", out[i] - psi[i], out[idx[0]] - psi[idx[0]], tol=1e-9, ntol=1e-4))
+            return rels
+    return claim
+
+
 def cases(tier):
     rnd = random.Random(seed())
     quick = tier == "quick"
@@ -228,6 +305,11 @@ def cases(tier):
     out.append(("whole_run[1x3;bounded]", whole_run_claim((1, 3), False), dict(max_paths=64)))
     out.append(("whole_run[1x2;bounded]", whole_run_claim((1, 2), False), dict(max_paths=64)))
     # (2x2 and periodic grids as one symbolic run did not finish within 15 minutes: they rest on the composition)
+    # the masked-embedding wrapper on a 1x3 detector grid with a 2-pixel overlap region (a 3-pixel region did not finish in 25 min)
+    out.append(("bf_overlap_wrapper[1x3;region 2 px;single pass]", wrapper_claim((1, 3), (1, 1, 0), False), dict(max_paths=256)))
+    if not quick:
+        out.append(("bf_overlap_wrapper[1x3;region 2 px;two_pass]", wrapper_claim((1, 3), (1, 1, 0), True), dict(max_paths=256)))
+        out.append(("bf_overlap_wrapper[3x1;region 2 px;single pass]", wrapper_claim((3, 1), (0, 1, 1), False), dict(max_paths=256)))
     return out
 
 
@@ -289,15 +371,18 @@ for _n, _c, _ in cases("thorough"):
 
 def run(check, tier):
     check.add_functions("imaging_utils._find_wrap", "_wrap_to_pi", "UnionFindPhase.find_root_and_offset/union", "_final_offsets",
-                        "_build_edges", "_pixel_reliability", "_unwrap_phase_2d_torch_reliability_sorting")
+                        "_build_edges", "_pixel_reliability", "_unwrap_phase_2d_torch_reliability_sorting", "unwrap_phase_2d_torch",
+                        "direct_ptycho_utils.unwrap_bf_overlap_phase_torch")
     check.bounds.update(find_wrap="all wrapped phases in (-pi, pi], wrap counts in -3..3, neighbour difference < pi",
                         union_step="every rooted forest on <= 3 nodes (quick: + 150 seeded of the forests on 4 nodes; thorough: all 125), every "
                                    "(x, y), three rank relations, symbolic offsets satisfying the invariant",
                         edges="grids up to 3x3, every mask, wrap-around on/off (engine X)",
-                        whole_run="1x2 and 1x3 bounded grids, all feasible edge orders by forking")
+                        whole_run="1x2 and 1x3 bounded grids, all feasible edge orders by forking",
+                        wrapper="unwrap_bf_overlap_phase_torch: 1x3 detector grid, 2-pixel region, single pass (thorough: two_pass, 3x1)")
     check.assumptions += ["pi is the float math.pi taken as an exact rational, in the code and in the definition of the wrapped input alike",
                           "composition of obligations 1-3 into the whole-grid statement is a pen-and-paper induction (stated, not queried)"]
-    check.outside += ["the Poisson method (approximate by construction)", "unwrap_bf_overlap_phase_torch", "float32 offsets", "grids beyond 1x3 as a "
+    check.outside += ["the Poisson method (approximate by construction)", "unwrap_bf_overlap_phase_torch beyond a 2-pixel overlap region on a 3-pixel detector "
+                      "grid (torch.angle is stubbed: the wrapped phases are the symbolic inputs)", "float32 offsets", "grids beyond 1x3 as a "
                       "single symbolic run (covered only through the compositional obligations)"]
     decide_many(check, [(n, c, dict(o, key=n.split("[")[0])) for n, c, o in cases(tier)],
                 timeout_s=120 if tier == "quick" else 600, validate=1, hard_timeout_s=400 if tier == "quick" else 2000)
